@@ -174,6 +174,7 @@ def run(ctx):
     slotloop_rule(ctx, syn)
     tmpsync_rule(ctx, prog)
     lateid_rule(ctx, syn)
+    preinsert_rule(ctx, prog)
 
     # ---------------- REIDX
     r_re = ctx.rule("C03.REIDX", "reindex(): every id map is remapped with the gap table of its own store, under the same emptiness guard; gaps()/Handle::reindex agree on the gap convention; indices mentioning a remapped handle type are remapped")
@@ -596,3 +597,27 @@ def lateid_rule(ctx, syn):
                     if not reg:
                         ctx.report(r, key, "%s gives an item that is already stored its identifier (`%s`) without registering it in the id map: the identifier is shown by the item but does not resolve to it" % (fn.qual, unparse(e)[:60]), fn.file, e.get("l"))
     ctx.floor(r, n, 1, "identifiers assigned after insertion")
+
+
+# ---------------------------------------------------------------------- PREINSERT
+def preinsert_rule(ctx, prog, rid="C03.PREINSERT"):
+    """StoreFor::insert registers the item's id in the id map and only then calls the preinsert() hook ("if it returns an
+    error the insert is cancelled").  Nothing takes the registration back, so a hook that can fail leaves the refused id
+    behind, pointing at the next free handle: the next item inserted answers to it."""
+    from props.c14 import fail_sites
+    r = ctx.rule(rid, "no implementation of the preinsert() hook can return an error (StoreFor::insert has registered the id by then and does not take it back)")
+    n = 0
+    for bid, b in sorted(prog.bodies.items()):
+        if not re.search(r"StoreCallbacks<.*>>::preinsert$|StoreCallbacks::preinsert$", bid) or b.d.get("derived"):
+            continue
+        n += 1
+        ctx.functions_analysed.add(bid)
+        fs = fail_sites(b)
+        r.hit(bid, sample={"hook": bid, "error_exits": len(fs)})
+        if fs:
+            ctx.report(r, bid, "%s can return an error (%s, line %s): StoreFor::insert has already put the item's id into the id map, so the refused id stays behind and resolves to whatever item is inserted next" % (bid, fs[0][1], fs[0][2]), b.file, fs[0][2])
+    ins = prog.one(r"^store::StoreFor::insert$")
+    pre = [bi for bi, t in ins.calls() if (mirq.callee_of(t)[0] or "").endswith("StoreCallbacks::preinsert")]
+    reg = [bi for bi, t in ins.calls() if re.search(r"HashMap.*::insert$", mirq.callee_of(t)[0] or "") or "{closure" in (mirq.callee_of(t)[0] or "")]
+    r.notes.append("preinsert hooks: %d; StoreFor::insert calls the hook at block(s) %s" % (n, pre))
+    ctx.floor(r, n, 3, "preinsert hooks")
